@@ -265,6 +265,61 @@ func ruleGem(p *Prog, r *Report) {
 		}
 	}
 
+	// ---- R-GEM-ONLYTRIM: nothing but the trailing-zero trimming removes segments ---------------------------
+	{
+		key := "gem: the stored list loses segments only through the trailing-zero trimming"
+		var segT types.Type
+		if st, ok := e.VerT.Underlying().(*types.Struct); ok {
+			for i := 0; i < st.NumFields(); i++ {
+				if sl, ok := st.Field(i).Type().Underlying().(*types.Slice); ok {
+					if _, isStruct := sl.Elem().Underlying().(*types.Struct); isStruct {
+						segT = st.Field(i).Type()
+					}
+				}
+			}
+		}
+		var trim *ssa.Function
+		for _, fn := range p.RepoReachable(e.NewVer) {
+			if fn.Signature.Params().Len() == 1 && fn.Signature.Results().Len() == 1 && segT != nil && types.Identical(fn.Signature.Params().At(0).Type(), segT) && types.Identical(fn.Signature.Results().At(0).Type(), segT) {
+				for _, l := range findLoops(fn) {
+					for b := range l.body {
+						for _, ins := range b.Instrs {
+							if sl, ok := ins.(*ssa.Slice); ok && sl.Low == nil && sl.High != nil {
+								if bo, ok := sl.High.(*ssa.BinOp); ok && bo.Op == token.SUB {
+									if n, ok := constInt(bo.Y); ok && n == 1 {
+										trim = fn
+									}
+								}
+							}
+						}
+					}
+				}
+			}
+		}
+		var cuts []string
+		for _, fn := range p.RepoReachable(e.NewVer) {
+			if fn == trim || fn.Blocks == nil || segT == nil {
+				continue
+			}
+			for _, b := range fn.Blocks {
+				for _, ins := range b.Instrs {
+					if sl, ok := ins.(*ssa.Slice); ok && types.Identical(sl.X.Type(), segT) && (sl.High != nil || sl.Low != nil) {
+						cuts = append(cuts, fn.Name()+" ("+p.Pos(sl.Pos())+")")
+					}
+				}
+			}
+		}
+		sort.Strings(cuts)
+		switch {
+		case segT == nil:
+			r.Und("R-GEM-ONLYTRIM", key, p.FnPos(e.NewVer), "segment list field not identified")
+		case len(cuts) > 0:
+			r.Bad("R-GEM-ONLYTRIM", key, p.FnPos(e.NewVer), "the segment list is cut outside the trailing-zero trimming, in "+cuts[0]+": segments in front of a later one can be dropped, and a version then no longer sorts with the versions that share its leading segments")
+		default:
+			r.Ok("R-GEM-ONLYTRIM", key, p.FnPos(e.NewVer), "no function of the constructor's call tree other than the trimming takes a sub-slice of a segment list")
+		}
+	}
+
 	// ---- R-GEM-PRE: '-' means '.pre.' ------------------------------------------------------------------------
 	{
 		key := "gem: a hyphen introduces the segment \"pre\" followed by ordinary segments"
